@@ -54,6 +54,11 @@ type server struct {
 	// http.Error on the library's writer (which is an http.ResponseWriter
 	// too), "wrapper-writeheader" with WriteHeader and Write on it
 	errVia   string
+	// viaEncoder: in streaming mode the handler writes each result with the
+	// response writer's own encoder (ResponseWriter.Encoder()) instead of
+	// going through the provider response writer; it does not call Flush
+	// (which the type offers but nothing requires)
+	viaEncoder bool
 	gotMh    multihash.Multihash
 	gotCid   cid.Cid
 	newErr   error
@@ -82,6 +87,19 @@ func (s *server) ServeHTTP(w http.ResponseWriter, r *http.Request) {
 	results := s.results
 	if s.missFor[string(rw.Multihash())] {
 		results = nil
+	}
+	if s.viaEncoder && rw.IsND() {
+		if len(results) == 0 {
+			writeErr(w, apierror.New(nil, http.StatusNotFound))
+			return
+		}
+		for _, pr := range results {
+			if err := rw.Encoder().Encode(pr); err != nil {
+				writeErr(w, err)
+				return
+			}
+		}
+		return
 	}
 	ew := w
 	switch s.errVia {
@@ -390,9 +408,10 @@ func TestCheck(t *testing.T) {
 		for _, pv := range []struct {
 			pref bool
 			via  string
-		}{{true, ""}, {false, ""}, {true, "wrapper"}, {false, "wrapper"}, {false, "wrapper-writeheader"}} {
+			enc  bool
+		}{{true, "", false}, {false, "", false}, {true, "wrapper", false}, {false, "wrapper", false}, {false, "wrapper-writeheader", false}, {false, "", true}} {
 			pref := pv.pref
-			srv.preferJSON, srv.errVia = pref, pv.via
+			srv.preferJSON, srv.errVia, srv.viaEncoder = pref, pv.via, pv.enc
 			for _, mode := range []string{"application/json", "application/x-ndjson"} {
 				status, ct, body, err := e.get("/multihash/"+mh.B58String(), []string{mode})
 				if err != nil {
@@ -448,7 +467,7 @@ func TestCheck(t *testing.T) {
 				}
 			}
 		}
-		srv.errVia = ""
+		srv.errVia, srv.viaEncoder = "", false
 		r.Outcome(fmt.Sprintf("readback-%d", len(l)))
 		if len(l) == 2 {
 			r.Sample(map[string]any{"results": names})
